@@ -530,6 +530,7 @@ func init() {
 		x.e.declareFun(fn, "("+so+") String")
 		return &TupleV{Vs: []Val{app(SString, fn, x.e.reify(st, iv.V, iv.Typ)), &ErrV{IsNil: TTrue}}}
 	})
+	reg("(github.com/tendermint/tendermint/libs/bytes.HexBytes).Bytes", "the bytes themselves", func(x *Exec, st *State, ci *callInfo, a []Val) Val { return a[0] })
 	reg("strings.ToLower", "tolower(s) (uninterpreted, length-preserving)", func(x *Exec, st *State, ci *callInfo, a []Val) Val {
 		x.e.declareFun("uf_tolower", "(String) String")
 		r := app(SString, "uf_tolower", tt(a[0]))
